@@ -573,6 +573,7 @@ func init() {
 			cfg     proxyCfg
 			nExtra  int
 			product bool
+			noDisc  int // which extra issuer has no discovery document (default: the second)
 		}
 		specs := []envSpec{
 			{name: "discovery", product: true, cfg: proxyCfg{SkipJwtBearer: true, ExtraAudiences: []string{tkExtraAud}, CookieRefresh: time.Hour}},
@@ -580,6 +581,8 @@ func init() {
 			{name: "static-jwks+nested-groups", cfg: proxyCfg{SkipJwtBearer: true, StaticKeys: "jwks", GroupsClaim: "realm_access.roles", CookieRefresh: time.Hour}},
 			{name: "static-pem+email-claim+skip-profile", cfg: proxyCfg{SkipJwtBearer: true, StaticKeys: "pem", EmailClaim: "upn", SkipClaimsFromProfile: true, ExtraAudiences: []string{tkExtraAud}, CookieRefresh: time.Hour}},
 			{name: "userid-claim+skip-issuer+2-extra", nExtra: 2, cfg: proxyCfg{SkipJwtBearer: true, UserIDClaim: "preferred_username", SkipIssuerCheck: true, ExtraAudiences: []string{tkExtraAud}, CookieRefresh: time.Hour}},
+			// the issuer WITHOUT discovery listed first: what the fallback configures for it stays its own
+			{name: "2-extra-no-discovery-first", nExtra: 2, noDisc: -1, cfg: proxyCfg{SkipJwtBearer: true, CookieRefresh: time.Hour}},
 			{name: "azp+1-extra", nExtra: 1, cfg: proxyCfg{SkipJwtBearer: true, AudienceClaims: []string{"azp", "aud"}, CookieRefresh: time.Hour}},
 			// both the current and the deprecated e-mail option set to different claims: the current one decides
 			{name: "email-claim+userid-claim", cfg: proxyCfg{SkipJwtBearer: true, EmailClaim: "upn", UserIDClaim: "preferred_username", CookieRefresh: time.Hour}},
@@ -596,7 +599,7 @@ func init() {
 				}
 				x := newFakeIDP("unused")
 				x.ownKey = k
-				if i == 1 {
+				if (sp.noDisc == 0 && i == 1) || (sp.noDisc == -1 && i == 0) {
 					// discovery fails for this one: the proxy falls back to <issuer>/.well-known/jwks.json
 					x.fault = func(ep string, n int, w http.ResponseWriter, r *http.Request) bool {
 						if ep == "/.well-known/openid-configuration" {
